@@ -12,10 +12,10 @@ Section Proofs.
   (** ** contracts of a feature *)
   (** painting a block keeps its length *)
   Definition paint_len (f : feature) : Prop :=
-    forall q p t blk, length blk = width p -> length (fst (ft_paint f q p t blk)) = width p.
+    forall q wt p t blk, length blk = width p -> length (fst (ft_paint f q wt p t blk)) = width p.
   (** the feature uses no random draws *)
   Definition no_random (f : feature) : Prop :=
-    forall q p t blk, ft_paint f q p t blk = (fst (ft_paint f q p 0 blk), t).
+    forall q wt p t blk, ft_paint f q wt p t blk = (fst (ft_paint f q wt p 0 blk), t).
 
   (** ** registered entries: in range, increasing, non-overlapping *)
   Fixpoint regs_good (n : nat) (regs : list (prop_req * nat)) : Prop :=
@@ -156,62 +156,62 @@ Section Proofs.
   Qed.
 
   (** ** one feature is a blockwise update *)
-  Definition paint0 (f : feature) (q : query) : prop_req -> list F -> list F :=
-    fun p blk => fst (ft_paint f q p 0 blk).
+  Definition paint0 (f : feature) (q : query) (wt : @wtemp F) : prop_req -> list F -> list F :=
+    fun p blk => fst (ft_paint f q wt p 0 blk).
 
-  Lemma paint0_keeps_len f q : paint_len f -> keeps_len (paint0 f q).
+  Lemma paint0_keeps_len f q wt : paint_len f -> keeps_len (paint0 f q wt).
   Proof. intros H p blk L. apply H, L. Qed.
 
-  Lemma feature_apply_blockwise f q regs : no_random f -> forall out t,
-    fold_left (paint_slot f q) regs (out, t) = (blockwise (paint0 f q) regs out, t).
+  Lemma feature_apply_blockwise f q wt regs : no_random f -> forall out t,
+    fold_left (paint_slot f q wt) regs (out, t) = (blockwise (paint0 f q wt) regs out, t).
   Proof.
     intros NR. induction regs as [|[p off] r IH]; intros out t; [reflexivity|].
     cbn [fold_left]. unfold paint_slot at 2. rewrite NR. rewrite IH. reflexivity.
   Qed.
 
   (** what all features together do to one block (no randomness) *)
-  Definition block_eval (fs : list feature) (q : query) (p : prop_req) (blk : list F) : list F :=
-    fold_left (fun b f => if ft_covers f q then paint0 f q p b else b) fs blk.
+  Definition block_eval (fs : list feature) (q : query) (wt : @wtemp F) (p : prop_req) (blk : list F) : list F :=
+    fold_left (fun b f => if ft_covers f q then paint0 f q wt p b else b) fs blk.
 
-  Lemma block_eval_cons f fs q p blk :
-    block_eval (f :: fs) q p blk = block_eval fs q p (if ft_covers f q then paint0 f q p blk else blk).
+  Lemma block_eval_cons f fs q wt p blk :
+    block_eval (f :: fs) q wt p blk = block_eval fs q wt p (if ft_covers f q then paint0 f q wt p blk else blk).
   Proof. reflexivity. Qed.
 
-  Lemma block_eval_length fs q p : Forall paint_len fs -> forall blk,
-    length blk = width p -> length (block_eval fs q p blk) = width p.
+  Lemma block_eval_length fs q wt p : Forall paint_len fs -> forall blk,
+    length blk = width p -> length (block_eval fs q wt p blk) = width p.
   Proof.
     intros H. induction H as [|f fs Hf Hfs IH]; intros blk L; [exact L|].
     rewrite block_eval_cons.
     apply IH. destruct (ft_covers f q); [apply Hf, L | exact L].
   Qed.
 
-  Lemma feature_apply_eq f q regs out t : no_random f ->
-    feature_apply q regs (out, t) f =
-    ((if ft_covers f q then blockwise (paint0 f q) regs out else out), t).
+  Lemma feature_apply_eq f q wt regs out t : no_random f ->
+    feature_apply q wt regs (out, t) f =
+    ((if ft_covers f q then blockwise (paint0 f q wt) regs out else out), t).
   Proof.
     intros NR. unfold feature_apply. destruct (ft_covers f q); [|reflexivity].
     apply feature_apply_blockwise, NR.
   Qed.
 
-  Lemma features_fold fs q regs :
+  Lemma features_fold fs q wt regs :
     Forall paint_len fs -> Forall no_random fs -> forall out t r,
     regs_good (length out) regs ->
-    fold_left (feature_apply q regs) fs (out, t) = r ->
+    fold_left (feature_apply q wt regs) fs (out, t) = r ->
     snd r = t /\ length (fst r) = length out /\
     (forall p off, In (p, off) regs ->
-       slice off (width p) (fst r) = block_eval fs q p (slice off (width p) out)) /\
+       slice off (width p) (fst r) = block_eval fs q wt p (slice off (width p) out)) /\
     (forall off n, Forall (fun pe => off + n <= snd pe \/ snd pe + width (fst pe) <= off) regs ->
        slice off n (fst r) = slice off n out).
   Proof.
     intros HL HN. revert HN. induction HL as [|f fs Hf Hfs IH]; intros HN out t r G E.
     - cbn in E. subst r. cbn. auto.
     - inversion HN as [|x l N1 N2]; subst x l. cbn [fold_left] in E.
-      rewrite (feature_apply_eq f q regs out t N1) in E.
+      rewrite (feature_apply_eq f q wt regs out t N1) in E.
       destruct (ft_covers f q) eqn:C.
-      + pose proof (paint0_keeps_len f q Hf) as K.
-        assert (G' : regs_good (length (blockwise (paint0 f q) regs out)) regs).
+      + pose proof (paint0_keeps_len f q wt Hf) as K.
+        assert (G' : regs_good (length (blockwise (paint0 f q wt) regs out)) regs).
         { rewrite blockwise_length; auto. }
-        destruct (IH N2 (blockwise (paint0 f q) regs out) t r G' E) as (I1 & I2 & I3 & I4).
+        destruct (IH N2 (blockwise (paint0 f q wt) regs out) t r G' E) as (I1 & I2 & I3 & I4).
         repeat split.
         * exact I1.
         * rewrite I2. apply blockwise_length; auto.
@@ -230,7 +230,7 @@ Section Proofs.
   Definition block_value (w : world) (pos : vec3) (depth : F) (p : prop_req) : list F :=
     let q := mk_query w pos depth in
     if registered w depth p
-    then block_eval (w_features w) q p (init_block w (q_g q) depth p)
+    then block_eval (w_features w) q (fun _ => world_temperature w q) p (init_block w (q_g q) depth p)
     else init_block w (q_g q) depth p.
 
   Lemma In_init_regs w d s ps i p :
@@ -278,10 +278,10 @@ Section Proofs.
     forall i p, nth_error ps i = Some p ->
       slice (output_size (firstn i ps)) (width p) r = block_value w pos depth p.
   Proof.
-    intros WO WN. unfold properties3d. rewrite init_from_eq. cbn [length app].
+    intros WO WN. unfold properties3d, properties_at. cbn [mk_query q_depth q_g]. rewrite init_from_eq. cbn [length app].
     destruct (existsb _ _); [discriminate|]. intros E. inversion E as [E']; clear E.
     set (q := mk_query w pos depth) in *.
-    pose proof (features_fold (w_features w) q (init_regs w depth 0 ps) WO WN
+    pose proof (features_fold (w_features w) q (fun _ => world_temperature w q) (init_regs w depth 0 ps) WO WN
                   (init_out w (q_g q) depth ps) t (r, t')) as H.
     rewrite init_out_length in H. specialize (H (init_regs_good w depth ps) E').
     cbn [fst snd] in H. destruct H as (H1 & H2 & H3 & H4).
